@@ -107,9 +107,8 @@ func (lp *Listpack) Next() []byte {
 		negmax = math.MaxUint64 // uint64_max
 		lp.p += lpEncodeBacklen(1 + 8)
 	} else {
-		uval = 12345678900000000 + uint64(fireByte)
-		negstart = math.MaxUint64
-		negmax = 0
+		// unknown encoding byte (0xFF is the terminator): never return without advancing
+		panic(fmt.Errorf("listpack: invalid encoding byte 0x%02x at offset %d", fireByte, inx))
 	}
 
 	/* We reach this code path only for integer encodings.
